@@ -50,7 +50,7 @@ func c03Ref(cmds []vlib.Cmd, key string) *vlib.RefIndex {
 
 // c03Check compares one NLP-off / fuzzy-off / boost-free search with the
 // exhaustive reference scan over the *current* db.Commands.
-func c03Check(ctx *Ctx, db *database.Database, hist []string, q string, o database.SearchOptions, where string) {
+func c03Check(ctx *Ctx, db *database.Database, hist []string, q string, o database.SearchOptions, where string, search ...func(string, database.SearchOptions) []database.SearchResult) {
 	cmds := db.Commands
 	N := len(cmds)
 	o.UseNLP, o.UseFuzzy, o.PipelineBoost, o.PipelineOnly = false, false, 0, false
@@ -59,7 +59,14 @@ func c03Check(ctx *Ctx, db *database.Database, hist []string, q string, o databa
 	ctx.R.Begin(cs)
 	ctx.R.Eval(1)
 	var res []database.SearchResult
-	if !ctx.R.Guard("C03", "SearchUniversal", cs, func() { res = db.SearchUniversal(q, o) }) {
+	if !ctx.R.Guard("C03", "SearchUniversal", cs, func() {
+		if len(search) > 0 && search[0] != nil {
+			res = search[0](q, o)
+			ctx.R.Path("searched-through-caching-wrapper", 1)
+		} else {
+			res = db.SearchUniversal(q, o)
+		}
+	}) {
 		return
 	}
 	ri := c03Ref(cmds, fmt.Sprintf("%d/%s", ctx.R.Evaluations/1000000, strings.Join(hist, ";")))
@@ -296,11 +303,26 @@ func engineIndexScan(ctx *Ctx) {
 		if !ok || db == nil {
 			continue
 		}
-		cdb = database.NewCachedDatabase(db)
 		mdb = database.NewMonitoredDatabase(db)
+		cdb = mdb.CachedDatabase // ONE wrapper stack around the database: replacements through either name invalidate the same cache
 		where := "load"
-		steps := 1 + r.Intn(4)
+		steps := 1 + r.Intn(6)
+		type issued struct {
+			q string
+			o database.SearchOptions
+		}
+		var earlier []issued
+		viaCache := func(q string, o database.SearchOptions) []database.SearchResult {
+			cdb.SearchWithOptionsAndCache(q, o)
+			return cdb.SearchWithOptionsAndCache(q, o)
+		}
 		for s := 0; s < steps; s++ {
+			// requests issued (and cached) earlier in the history are asked again: the answer must follow the commands of now
+			for i := 0; i < len(earlier) && i < 3; i++ {
+				e := earlier[len(earlier)-1-i]
+				c03Check(ctx, db, hist, e.q, e.o, where, viaCache)
+				ctx.R.Path("earlier-requests-repeated", 1)
+			}
 			words := vlib.DBWords(db.Commands)
 			nq := 2 + r.Intn(3)
 			for k := 0; k < nq; k++ {
@@ -316,7 +338,12 @@ func engineIndexScan(ctx *Ctx) {
 				if r.Intn(5) == 0 {
 					o.TopTermsCap = []int{1, 4, 10, 50}[r.Intn(4)]
 				}
-				c03Check(ctx, db, hist, q, o, where)
+				var via func(string, database.SearchOptions) []database.SearchResult
+				if r.Intn(3) == 0 { // through the caching wrapper (twice: miss, then possibly a hit)
+					via = viaCache
+					earlier = append(earlier, issued{q, o})
+				}
+				c03Check(ctx, db, hist, q, o, where, via)
 				if k == 0 {
 					c03Twin(ctx, db, hist, q, where)
 				}
@@ -326,7 +353,27 @@ func engineIndexScan(ctx *Ctx) {
 				break
 			}
 			ctx.R.Guard("C03", "history-step", hist, func() {
-				switch r.Intn(4) {
+				switch r.Intn(7) {
+				case 4: // cache switched off / on around whatever comes next
+					en := r.Intn(2) == 0
+					cdb.EnableCache(en)
+					hist = append(hist, fmt.Sprintf("EnableCache(%v)", en))
+				case 5: // off, replace, on
+					cdb.EnableCache(false)
+					sp2 := sp
+					sp2.N = len(db.Commands)
+					repl := vlib.MustLoad(vlib.GenCommands(r, sp2)).Commands
+					cdb.UpdateDatabase(repl)
+					cdb.EnableCache(true)
+					hist = append(hist, "EnableCache(false)", fmt.Sprintf("UpdateDatabase(%d)", len(repl)), "EnableCache(true)")
+					where = "UpdateDatabase"
+				case 6: // refresh with a freshly loaded, textually identical list
+					if len(db.Commands) > 0 {
+						same := vlib.MustLoad(db.Commands).Commands
+						cdb.UpdateDatabase(same)
+						hist = append(hist, fmt.Sprintf("UpdateDatabase(identical %d)", len(same)))
+						where = "UpdateDatabase"
+					}
 				case 0: // replace through the caching wrapper: same size / smaller / larger
 					n := len(db.Commands)
 					switch r.Intn(3) {
